@@ -50,6 +50,14 @@ func NewCSVWriter(writer *csv.Writer) func(ro.Observable[[]string]) ro.Observabl
 					func(ctx context.Context) {
 						writer.Flush()
 						destination.NextWithContext(ctx, count)
+
+						// csv.Writer buffers: a failure of the underlying writer only shows up
+						// once the buffer has been flushed.
+						if err := writer.Error(); err != nil {
+							destination.ErrorWithContext(ctx, err)
+							return
+						}
+
 						destination.CompleteWithContext(ctx)
 					},
 				),
